@@ -16,6 +16,7 @@
 //! feat/attr are f32 bit patterns or `-` for None.
 use similari::prelude::{PositionalMetricType, Sort, Universal2DBox};
 use similari::track::{ObservationAttributes, ObservationMetricOk};
+use similari::trackers::sort::batch_api::{BatchSort, SortPredictionBatchRequest};
 use similari::trackers::sort::voting::SortVoting;
 use similari::trackers::sort::VotingType;
 use similari::trackers::visual_sort::observation_attributes::VisualObservationAttributes;
@@ -304,6 +305,38 @@ fn gen_vote_stream(rng: &mut Rng, fine: bool, overlap_ids: bool) -> Vec<Ent> {
     s
 }
 
+/// query ids and track ids from the SAME small range 1..k (matching the tracks of one store against another): query b
+/// loses its best track T to the better fitting query a and falls back to itself; then a lighter claim (by c) on the
+/// track whose id equals b. Plus random extra claims on a fine grid. Tie-free by construction of the core.
+fn gen_overlap_bestfit(rng: &mut Rng) -> (f32, usize, Vec<Ent>) {
+    let k = 3 + rng.below(3);
+    let b = 1 + rng.below(k);
+    let mut a = 1 + rng.below(k);
+    if a == b {
+        a = 1 + (a % k);
+    }
+    let mut t = 1 + rng.below(k);
+    if t == b {
+        t = 1 + (t % k);
+    }
+    let mut c = 1 + rng.below(k);
+    if c == b && rng.chance(1, 2) {
+        c = 1 + (c % k);
+    }
+    let mut s = vec![
+        Ent { from: a, to: t, v: Some(rng.dyadic(1, 8, 6)) },
+        Ent { from: b, to: t, v: Some(rng.dyadic(17, 24, 6)) },
+        Ent { from: c, to: b, v: Some(rng.dyadic(33, 44, 6)) },
+        // the largest distance of the stream, above max_distance
+        Ent { from: 1 + rng.below(k), to: 1 + rng.below(k), v: Some(1.0) },
+    ];
+    for _ in 0..rng.below(4) {
+        s.push(Ent { from: 1 + rng.below(k), to: 1 + rng.below(k), v: Some(rng.dyadic(1, 230, 8)) });
+    }
+    rng.shuffle(&mut s);
+    (0.875, 1, s)
+}
+
 fn gen_maxd(rng: &mut Rng, fine: bool) -> f32 {
     match rng.below(10) {
         0 => 100.0,
@@ -567,8 +600,49 @@ struct Known {
     state: KalmanState<10>,
 }
 
-fn box_s(b: &(f32, f32, f32, f32, f32)) -> String {
-    format!("{}/{}/{}/{}/{}", f32b(b.0), f32b(b.1), f32b(b.2), f32b(b.3), f32b(b.4))
+/// a detection: left, top, width, height, confidence, angle (None = axis aligned)
+type Det = (f32, f32, f32, f32, f32, Option<f32>);
+
+fn box_s(b: &Det) -> String {
+    match b.5 {
+        None => format!("{}/{}/{}/{}/{}", f32b(b.0), f32b(b.1), f32b(b.2), f32b(b.3), f32b(b.4)),
+        Some(a) => format!("{}/{}/{}/{}/{}/{}", f32b(b.0), f32b(b.1), f32b(b.2), f32b(b.3), f32b(b.4), f32b(a)),
+    }
+}
+
+fn det_box(b: &Det) -> Universal2DBox {
+    match b.5 {
+        None => Universal2DBox::ltwh_with_confidence(b.0, b.1, b.2, b.3, b.4),
+        Some(a) => Universal2DBox::new_with_confidence(b.0 + b.2 / 2.0, b.1 + b.3 / 2.0, Some(a), b.2 / b.3, b.3, b.4),
+    }
+}
+
+enum Trk {
+    S(Sort),
+    B(BatchSort),
+}
+
+impl Trk {
+    /// one predict call for scene 0; the batch tracker is driven with a one-scene batch and its result is awaited
+    fn predict(&mut self, boxes: &[(Universal2DBox, Option<i64>)]) -> Vec<similari::prelude::SortTrack> {
+        match self {
+            Trk::S(t) => t.predict(boxes),
+            Trk::B(t) => {
+                let mut req = SortPredictionBatchRequest::new();
+                for (b, c) in boxes {
+                    req.add(0, b.clone(), *c);
+                }
+                let res = req.result.take().unwrap();
+                t.predict(req.batch);
+                res.get().1
+            }
+        }
+    }
+}
+
+fn run_history(mode: &str, thr: f32, min_conf: f32, max_idle: usize, pw: f32, vw: f32, calls: &[Vec<(f32, f32, f32, f32, f32)>]) {
+    let c6: Vec<Vec<Det>> = calls.iter().map(|c| c.iter().map(|b| (b.0, b.1, b.2, b.3, b.4, None)).collect()).collect();
+    run_history_x(mode, thr, min_conf, max_idle, pw, vw, "sort", 1, &c6);
 }
 
 /// history: calls of (left, top, width, height, confidence) boxes, scene 0.
@@ -577,33 +651,47 @@ fn box_s(b: &(f32, f32, f32, f32, f32)) -> String {
 ///       chosen=<d:tid|d:-,...> anomalies=<text|->
 /// pairs = every (detection, eligible track) the gate lets through, with the integer weight the voting engine sees,
 /// recomputed here from public functions only (Kalman filter API, too_far, calculate_metric_object, calculate_cost).
-fn run_history(mode: &str, thr: f32, min_conf: f32, max_idle: usize, pw: f32, vw: f32, calls: &[Vec<(f32, f32, f32, f32, f32)>]) {
+/// api = "sort" (Sort::predict) | "batch" (BatchSort::predict, one-scene batches); bbox_history is the tracker's history
+/// length (it must not influence which tracks may be continued). Epochs are counted HERE: one per predict call that
+/// reaches the scene (the batch tracker is not called for an empty detection list).
+#[allow(clippy::too_many_arguments)]
+fn run_history_x(mode: &str, thr: f32, min_conf: f32, max_idle: usize, pw: f32, vw: f32, api: &str, bbox_history: usize, calls: &[Vec<Det>]) {
     let hist = calls
         .iter()
         .map(|c| if c.is_empty() { "-".to_string() } else { c.iter().map(box_s).collect::<Vec<_>>().join(";") })
         .collect::<Vec<_>>()
         .join("|");
     println!(
-        "e2ehist mode={} thr={} minconf={} maxidle={} pw={} vw={} calls={}",
+        "e2ehist mode={} thr={} minconf={} maxidle={} pw={} vw={} api={} hist={} calls={}",
         mode,
         f32b(thr),
         f32b(min_conf),
         max_idle,
         f32b(pw),
         f32b(vw),
+        api,
+        bbox_history,
         hist
     );
     let method = if mode == "iou" { PositionalMetricType::IoU(thr) } else { PositionalMetricType::Mahalanobis };
     let thr_used: f32 = if mode == "iou" { thr } else { 1.0 };
     let thrz = (thr_used * F32_U64_MULT) as i64;
     let res = guarded(|| {
-        let mut sort = Sort::new(1, 1, max_idle, method, min_conf, None, pw, vw);
+        let mut sort = if api == "batch" {
+            Trk::B(BatchSort::new(1, 1, bbox_history, max_idle, method, min_conf, None, pw, vw))
+        } else {
+            Trk::S(Sort::new(1, bbox_history, max_idle, method, min_conf, None, pw, vw))
+        };
+        let mut epoch = 0usize;
         let f = Universal2DBoxKalmanFilter::new(pw, vw);
         let mut known: HashMap<u64, Known> = HashMap::new();
         for (ci, dets) in calls.iter().enumerate() {
-            let epoch = ci + 1;
-            let boxes: Vec<(Universal2DBox, Option<i64>)> =
-                dets.iter().map(|b| (Universal2DBox::ltwh_with_confidence(b.0, b.1, b.2, b.3, b.4), Some(0))).collect();
+            if api == "batch" && dets.is_empty() {
+                println!("e2e call={} mode={} thrz={} nd=0 elig=- pairs=- farok=- chosen=- shadow_bad=0 anomalies=- tb=- d2=-", ci, mode, thrz);
+                continue;
+            }
+            epoch += 1;
+            let boxes: Vec<(Universal2DBox, Option<i64>)> = dets.iter().map(|b| (det_box(b), Some(0))).collect();
             // candidates as the tracker will see them: one Kalman initiate+predict+update on the detection
             let mut cands: Vec<(Universal2DBox, KalmanState<10>)> = vec![];
             for (b, _) in &boxes {
@@ -850,6 +938,72 @@ fn gen_probe_history(rng: &mut Rng, pw: f32, vw: f32, target: f32) -> Vec<Vec<(f
     calls
 }
 
+/// ORIENTED boxes: elongated bars that all share one constant non-zero tilt (detections and hence tracks). The first
+/// frames repeat the same box, so the track's predicted angle is the detections' angle; then the bar is displaced along
+/// its own axis, across it, or along x by fractions of its length / height, which puts the true IoU on both sides of
+/// the usual thresholds (and makes it very different from the IoU of the un-rotated rectangles).
+fn gen_tilt_history(rng: &mut Rng) -> Vec<Vec<Det>> {
+    let theta = *rng.pick(&[0.3f32, 0.5, 0.8, 1.2]);
+    let h = *rng.pick(&[8.0f32, 10.0, 12.0]);
+    let w = h * *rng.pick(&[3.0f32, 4.0, 6.0]);
+    let nobj = 1 + rng.below(2) as usize;
+    let still = 2 + rng.below(2) as usize;
+    let moves = 3 + rng.below(4) as usize;
+    let (c, s) = (theta.cos(), theta.sin());
+    let along = [0.1f32, 0.2, 0.25, 0.3, 0.4, 0.6, 1.2];
+    let across = [0.2f32, 0.4, 0.6, 0.9, 1.5];
+    let mut pos: Vec<(f32, f32)> = (0..nobj).map(|i| (300.0 + 700.0 * i as f32, 300.0)).collect();
+    let mut calls = vec![];
+    for fr in 0..(still + moves) {
+        let mut dets: Vec<Det> = vec![];
+        for o in pos.iter_mut() {
+            if fr >= still {
+                let sign = if rng.chance(1, 2) { 1.0 } else { -1.0 };
+                let (dx, dy) = match rng.below(3) {
+                    0 => {
+                        let k = *rng.pick(&along) * w * sign;
+                        (k * c, k * s)
+                    }
+                    1 => {
+                        let k = *rng.pick(&across) * h * sign;
+                        (-k * s, k * c)
+                    }
+                    _ => (*rng.pick(&along) * w * sign, 0.0),
+                };
+                o.0 += (dx * 4.0).round() / 4.0;
+                o.1 += (dy * 4.0).round() / 4.0;
+            }
+            dets.push((o.0 - w / 2.0, o.1 - h / 2.0, w, h, 1.0, Some(theta)));
+        }
+        calls.push(dets);
+    }
+    calls
+}
+
+/// two or three still objects far apart; object 0 is not detected for `gap` consecutive frames while the others keep
+/// the scene's epoch advancing, then it is detected again at the same place: it must continue its track iff
+/// gap <= max_idle (whatever the history length is)
+fn gen_gap_history(rng: &mut Rng, gap: usize) -> Vec<Vec<Det>> {
+    let nobj = 2 + rng.below(2) as usize;
+    let before = 2 + rng.below(2) as usize;
+    let after = 2 + rng.below(2) as usize;
+    let size = 20.0 + rng.below(3) as f32 * 10.0;
+    let mut calls = vec![];
+    for fr in 0..(before + gap + after) {
+        let mut dets: Vec<Det> = vec![];
+        for i in 0..nobj {
+            if i == 0 && fr >= before && fr < before + gap {
+                continue;
+            }
+            let j = rng.range(-1, 1) as f32 * 0.25;
+            dets.push((100.0 + 300.0 * i as f32 + j, 100.0 + j, size, size, 1.0, None));
+        }
+        rng.shuffle(&mut dets);
+        calls.push(dets);
+    }
+    calls
+}
+
 /// objects that jump between frames by 1/4 .. 6 times (r_det + r_track) (equal sizes: 2r per unit), small boxes,
 /// objects far apart from one another; positions on a 1/4-pixel grid
 fn gen_jump_history(rng: &mut Rng) -> Vec<Vec<(f32, f32, f32, f32, f32)>> {
@@ -909,7 +1063,7 @@ fn replay_line(line: &str) {
         "sortv" => emit_sortv(fbits(&m["thr"]), m["n"].parse().unwrap(), m["cols"].parse().unwrap(), &parse_stream(&m["s"])),
         "visual" => emit_visual(fbits(&m["thr"]), fbits(&m["maxd"]), m["minv"].parse().unwrap(), &parse_stream4(&m["s"])),
         "e2ehist" => {
-            let calls: Vec<Vec<(f32, f32, f32, f32, f32)>> = m["calls"]
+            let calls: Vec<Vec<Det>> = m["calls"]
                 .split('|')
                 .map(|c| {
                     if c == "-" {
@@ -918,7 +1072,7 @@ fn replay_line(line: &str) {
                         c.split(';')
                             .map(|b| {
                                 let p: Vec<f32> = b.split('/').map(fbits).collect();
-                                (p[0], p[1], p[2], p[3], p[4])
+                                (p[0], p[1], p[2], p[3], p[4], if p.len() > 5 { Some(p[5]) } else { None })
                             })
                             .collect()
                     }
@@ -926,7 +1080,9 @@ fn replay_line(line: &str) {
                 .collect();
             let pw = m.get("pw").map(|x| fbits(x)).unwrap_or(1.0 / 20.0);
             let vw = m.get("vw").map(|x| fbits(x)).unwrap_or(1.0 / 160.0);
-            run_history(&m["mode"], fbits(&m["thr"]), fbits(&m["minconf"]), m["maxidle"].parse().unwrap(), pw, vw, &calls);
+            let api = m.get("api").cloned().unwrap_or_else(|| "sort".to_string());
+            let bh: usize = m.get("hist").map(|x| x.parse().unwrap()).unwrap_or(1);
+            run_history_x(&m["mode"], fbits(&m["thr"]), fbits(&m["minconf"]), m["maxidle"].parse().unwrap(), pw, vw, &api, bh, &calls);
         }
         _ => {}
     }
@@ -965,6 +1121,12 @@ fn main() {
                 let n = rng.range(0, 5) as usize;
                 emit_topn(n, maxd, minv, &s);
                 emit_bestfit(maxd, minv, &s);
+            }
+            // ---- best fit with numerically overlapping id spaces (deliberate family)
+            for _ in 0..(a.n / 8 + 5) {
+                let (maxd, minv, s) = gen_overlap_bestfit(&mut rng);
+                emit_bestfit(maxd, minv, &s);
+                emit_topn(2, maxd, minv, &s);
             }
             // ---- SortVoting: random up to 8x8
             let thrs = [0.25f32, 0.3, 0.5, 0.7, 1.0];
@@ -1100,6 +1262,27 @@ fn main() {
                     let calls = if k % 3 == 1 && (k / 3) % 2 == 0 { gen_aspect_history(&mut rng) } else { gen_history(&mut rng) };
                     let thr = *rng.pick(&[0.3f32, 0.3, 0.25, 0.5, 0.1]);
                     run_history("iou", thr, min_conf, max_idle, 1.0 / 20.0, 1.0 / 160.0, &calls);
+                }
+            }
+            // ---- oriented bars sharing a constant tilt (IoU mode), through Sort and BatchSort
+            for k in 0..(a.n / 6 + 4) {
+                let calls = gen_tilt_history(&mut rng);
+                let thr = *rng.pick(&[0.3f32, 0.25, 0.5]);
+                let api = if k % 3 == 2 { "batch" } else { "sort" };
+                run_history_x("iou", thr, 0.05, 2, 1.0 / 20.0, 1.0 / 160.0, api, 1 + k % 3, &calls);
+            }
+            // ---- expiry: only tracks idle for <= max_idle epochs may be continued, independently of the history length;
+            //      both entry points, bbox_history != max_idle in both orders, gaps below / between / above the two values
+            let combos = [(1usize, 3usize), (4, 1), (2, 4), (5, 2), (3, 3)];
+            for k in 0..(a.n / 4 + 10) {
+                let (bh, idle) = combos[k % combos.len()];
+                let gap = 1 + (k / combos.len()) % 5;
+                let calls = gen_gap_history(&mut rng, gap);
+                let api = if k % 2 == 0 { "batch" } else { "sort" };
+                if (k / 2) % 3 == 2 {
+                    run_history_x("maha", 1.0, 0.05, idle, 1.0 / 20.0, 1.0 / 160.0, api, bh, &calls);
+                } else {
+                    run_history_x("iou", 0.3, 0.05, idle, 1.0 / 20.0, 1.0 / 160.0, api, bh, &calls);
                 }
             }
         }
